@@ -65,6 +65,9 @@ def gen_cfg(r, i):
     if mode == "final" or r.random() < 0.25:
         cfg["n_final_samples"] = int(cfg["n_samples"] * r.choice([0.5, 2]))
     cfg["checkpoint_every"] = int(r.choice([1, 1, 2, 3]))
+    if (i // 8) % 2 == 1 and mode in ("adaptive", "fixed", "ramp", "final"):
+        # the other runnable SMC kernel: it fills one more diagnostic series (mcmc_autocorr)
+        cfg["sampler"] = "emcee_smc"
     return cfg, mode
 
 
@@ -82,6 +85,10 @@ def check_history(chk, case, res, resumed=False):
     if len(rec["accept"]) not in (0, its):
         chk.fail("one entry per iteration in every series", case,
                  f"mcmc_acceptance: {len(rec['accept'])} entries for {its} iterations", {**sig, "clause": "length", "series": "mcmc_acceptance"})
+    n_auto = len(getattr(h, "mcmc_autocorr", []) or [])
+    if n_auto not in (0, its):
+        chk.fail("one entry per iteration in every series", case,
+                 f"mcmc_autocorr: {n_auto} entries for {its} iterations", {**sig, "clause": "length", "series": "mcmc_autocorr", "entries_minus_iterations": n_auto - its})
     if len(rec["pops"]) != its + 1:
         chk.fail("stored populations = initial + one per iteration", case,
                  f"{len(rec['pops'])} stored populations for {its} iterations", {**sig, "clause": "pops_length"})
@@ -233,7 +240,9 @@ def run(chk: core.Check):
 
 def m_accept_extra(rec, sig):
     s = rec["signature"]
-    return s.get("clause") == "length" and s.get("series") == "mcmc_acceptance" and s.get("n_final")
+    # (the same extra mutation also appends to mcmc_autocorr where the kernel fills it: exactly ONE extra entry)
+    return s.get("clause") == "length" and s.get("n_final") and (
+        s.get("series") == "mcmc_acceptance" or (s.get("series") == "mcmc_autocorr" and s.get("entries_minus_iterations") == 1))
 
 
 MATCHERS = {"mcmc_acceptance_extra_entry_final_enlargement": m_accept_extra}
